@@ -108,6 +108,17 @@ def user_derivative(torch, mk, u, others, reg):
 # deterministic corpus (every tier, every seed) of the number of underliers of default-hedge scenarios in the hedge-modes loop
 DEFAULT_HEDGE_CORPUS = [2, 3, 2, 1, 2, 3]
 
+# deterministic corpus (every tier, every seed) of the class "the state-dependent input is NOT the last entry of `inputs`": (the
+# state-independent features, H, position of prev_hedge among the inputs).  The features are never zero on the generated markets, so the
+# zeros of prev_hedge at step 0 show where the model sees them.
+PREV_POS_CORPUS = [(["moneyness"], 1, 0), (["moneyness", "time_to_maturity"], 1, 0), (["underlier_spot", "volatility"], 2, 1),
+                   (["moneyness", "underlier_spot", "ones"], 2, 0), (["underlier_spot"], 3, 0), (["moneyness", "ones"], 1, 1),
+                   (["ones", "moneyness", "underlier_spot"], 1, 2), (["spot", "moneyness"], 2, 1)]
+# ... and of the class "the price series of the underlier is longer / shorter than the derivative's own maturity" among the hedgers:
+# (state-independent features with the time to maturity among them, H, series length minus grid points up to maturity)
+HORIZON_CORPUS = [(["time_to_maturity"], 1, 1), (["moneyness", "time_to_maturity"], 1, -1), (["time_to_maturity", "underlier_spot"], 2, 3),
+                  (["time_to_maturity", "moneyness"], 1, -2), (["volatility", "time_to_maturity"], 1, 2), (["time_to_maturity"], 2, -3)]
+
 COPY_KINDS = ["deepcopy_fresh", "deepcopy_used", "pickle_fresh", "state_dict"]
 
 
@@ -130,7 +141,7 @@ def copy_hedger(ctx, h, kind, rebuild):
     return copy.deepcopy(h)
 
 
-ROUTES = ["inject", "inject", "underlier", "sibling", "derivative", "cast", "deepcopy"]
+ROUTES = ["inject", "inject", "underlier", "sibling", "derivative", "cast", "deepcopy", "maturity"]
 
 
 def second_round(torch, g, f, d, u, mk, name):
@@ -139,37 +150,49 @@ def second_round(torch, g, f, d, u, mk, name):
     (possibly another number of paths), the underlier simulated directly, a sibling derivative on the same underlier
     simulated, the derivative itself simulated, the derivative cast to another dtype, or a DEEP COPY of the bound feature (with its
     own derivative and underlier) given another market.  Whatever the feature / the derivative remembered from the first round must
-    not show: single steps == columns of the batched value (routes with an injected dyadic market also go to the model)."""
+    not show: single steps == columns of the batched value (routes with an injected dyadic market also go to the model).
+    The new price series need NOT be as long as the derivative's own maturity: buffers of another length registered by hand, the underlier
+    simulated over another horizon, a sibling derivative of another maturity simulated last, or (route "maturity") the derivative's maturity
+    edited while the series stays."""
     import pfhedge.instruments as I
     T = mk["T"]
     route = g.choice([r for r in ROUTES if not (name == "module_output" and r == "cast")])   # (the float64 module is not cast)
     info = {"route": route, "class": ":strike<0" if mk["strike"] < 0 else ""}
     mk2 = None
+    # grid points of the new series / up to the new maturity: the old ones, or (4 in 10) others
+    To = T if g.chance(0.6) else g.choice([t_ for t_ in (2, 3, 4, 6, 9, 13) if t_ != T])
     if route in ("inject", "deepcopy"):
         if route == "deepcopy":
             # a deep copy of the bound feature carries its own derivative and underlier: the COPY is evaluated on another market
             import copy
             f, d = copy.deepcopy((f, d))
             u = d.ul()
-        mk2 = rebase_market(signed_market(g, gen_market(g, T=T, primary=mk["primary"]), strike=False), mk)
+        mk2 = rebase_market(signed_market(g, gen_market(g, T=To, primary=mk["primary"]), strike=False), mk)
         inject(torch, u, mk2)
         info |= {"spot": enc_rat(mk2["spot"]), "var": enc_rat(mk2["var"]), "vol": enc_rat(mk2["vol"]), "class": sign_class(mk2)}
     elif route == "cast":
         d.to(torch.float32)
+    elif route == "maturity":
+        if To == T:
+            To = T + g.choice([1, 2, 5]) if (T == 2 or g.chance(0.5)) else g.randint(2, T - 1)
+        d.maturity = (To - 1) * float(mk["dt"])
+        mk2 = mk                                  # (the injected market of the first round is still there)
     else:
         n2, seed = g.choice([1, 2, 3]), g.randint(0, 10 ** 6)
         info |= {"n_paths": n2, "torch_seed": seed}
         torch.manual_seed(seed)
+        horizon = d.maturity if To == T else (To - 1) * float(mk["dt"])
         if route == "underlier":
-            st, v, _ = call_impl(u.simulate, n_paths=n2, time_horizon=d.maturity)
+            st, v, _ = call_impl(u.simulate, n_paths=n2, time_horizon=horizon)
         elif route == "sibling":
-            sib = getattr(I, g.choice(OPTION_TYPES))(u, maturity=d.maturity)
+            sib = getattr(I, g.choice(OPTION_TYPES))(u, maturity=horizon)
             st, v, _ = call_impl(sib.simulate, n_paths=n2)
         else:
             st, v, _ = call_impl(d.simulate, n_paths=n2)
         if st != "ok":
             raise InternalError(f"second round: simulation by route {route} raised: {v}")
     N2, T2 = u.spot.shape
+    info |= {"maturity_steps": round(d.maturity / float(mk["dt"])), "hcls": ":series!=maturity" if round(d.maturity / float(mk["dt"])) != T2 - 1 else ""}
     steps = sorted({0, T2 - 1, g.randint(0, T2 - 1), g.randint(0, T2 - 1)})
     batched_first = g.chance(0.5)
     info |= {"steps": steps, "batched_first": batched_first, "N": N2, "T": T2}
@@ -187,7 +210,8 @@ def judge_second_round(ctx, torch, second, case, name, log, fjson=None):
     case = case | {"second_round": info}
     ctx.case(case, nontrivial=T >= 2, tag="feature_second_round")
     ctx.stats[f"route={info['route']}"] += 1
-    key = f"feature:{name}:step-vs-all:after-market-change" + (":copy" if info["route"] == "deepcopy" else "") + info["class"]
+    key = f"feature:{name}:step-vs-all:after-market-change" + (":copy" if info["route"] == "deepcopy" else "") + info["class"] + info["hcls"]
+    ctx.stats["second round: series " + ("!=" if info["hcls"] else "==") + " maturity"] += 1
     if st_all != "ok":
         ctx.fail(f"feature {name}.get(None) raised after the market was replaced ({info['route']})", case, key=key + ":error", detail=v_all)
         return []
@@ -539,6 +563,14 @@ def check(ctx):
         log = name in LOG_FEATURES
         case = {"feature": name, "thr": rat_str(thr), "option": mk["option"], "primary": mk["primary"], "T": T, "N": N,
                 "spot": enc_rat(mk["spot"]), "strike": rat_str(mk["strike"]), "dt": rat_str(mk["dt"]), "steps": steps}
+        # the price series (buffers registered by hand) need not end at the derivative's own maturity: Tm grid points up to maturity
+        hcls = ""
+        if g.chance(0.2):
+            Tm = g.choice([t_ for t_ in (2, 3, 4, 6, 9, 13) if t_ != T])
+            d.maturity = (Tm - 1) * float(mk["dt"])
+            hcls = ":series!=maturity"
+            case |= {"maturity": f"{Tm - 1} steps of dt (the series has {T - 1})"}
+        ctx.stats["first round: series " + ("!=" if hcls else "==") + " maturity"] += 1
         with torch.no_grad():
             inject(torch, u, mk)
             st_all, v_all, mut = call_impl(f.get, None, watch=[("derivative", d)])
@@ -584,7 +616,7 @@ def check(ctx):
             tol_log = log or name == "time_to_maturity"     # ttm: real identity, <= 2 ulp in floats (DESIGN 5.3)
             if not vals_equal(v.to(torch.float64).tolist(), col, tol_log):
                 ctx.fail(f"feature {name}: get(i) differs from column i of get(None)", case | {"i": i},
-                         key=f"feature:{name}:step-vs-all" + sign_class(mk), detail={"at": v.tolist(), "col": col})
+                         key=f"feature:{name}:step-vs-all" + sign_class(mk) + hcls, detail={"at": v.tolist(), "col": col})
         # correspondence with the model, path by path
         for p in range(N):
             reqs.append({"op": "feat", "market": market_json(mk, p), "feature": feature_json(name, thr, subj), "steps": steps,
@@ -593,18 +625,38 @@ def check(ctx):
                           [row for row in allv[p]],
                           [(st, (v.to(torch.float64)[p, 0].tolist() if st == "ok" else v)) for st, v in ats]))
     # ------------------------------------------------------------------ time to maturity on non-dyadic grids in double precision
+    from pfhedge.nn.functional import pl as pl_fn
+    # ... and on price series that do not end at the derivative's own maturity, by every route a user has (deterministic: the routes take
+    # turns): a sibling derivative of a longer / shorter maturity on the same stock simulated last (the set-up of hedging with a listed
+    # option), the stock simulated directly over a longer / shorter horizon, the maturity edited after the simulation, a spot buffer
+    # registered by hand.  A hedger fed with the time to maturity then gives the same hedge and P&L all at once and step by step.
     import pfhedge.instruments as I
-    for it in range(24 if ctx.tier == "quick" else 300):
+    HORIZON_ROUTES = ["own", "sibling_longer", "sibling_shorter", "underlier_longer", "underlier_shorter", "maturity_edited", "buffer_by_hand"]
+    for it in range(28 if ctx.tier == "quick" else 301):
+        route = HORIZON_ROUTES[it % len(HORIZON_ROUTES)]
         dtv = g.choice([1 / 250, 0.1, 1 / 365, 1 / 12, 0.01, 1 / 52])
-        ksteps = g.choice([1, 2, 5, 9, 30])
+        ksteps = g.choice([1, 2, 5, 9, 30] if not route.endswith("shorter") else [2, 5, 9, 30])
+        osteps = ksteps + g.choice([1, 2, 5]) if not route.endswith("shorter") else g.randint(1, ksteps - 1)    # the other horizon, in steps
         dname = g.choice(["float64", "float64", "float32"])
-        stock = I.BrownianStock(dt=dtv, dtype=getattr(torch, dname))
+        stock = I.BrownianStock(dt=dtv, cost=g.choice([0.0, 1e-3]), dtype=getattr(torch, dname))
         d = g.choice([I.EuropeanOption, I.LookbackOption])(stock, maturity=ksteps * dtv)
         torch.manual_seed(g.randint(0, 10 ** 6))
-        d.simulate(n_paths=2)
+        if route.startswith("underlier"):
+            stock.simulate(n_paths=2, time_horizon=osteps * dtv)
+        elif route == "buffer_by_hand":
+            stock.register_buffer("spot", 1.0 + 0.25 * torch.rand(2, osteps + 1, dtype=getattr(torch, dname)))
+        else:
+            d.simulate(n_paths=2)
+            if route.startswith("sibling"):
+                g.choice([I.EuropeanOption, I.LookbackOption])(stock, maturity=osteps * dtv).simulate(n_paths=2)
+            elif route == "maturity_edited":
+                d.maturity = osteps * dtv
         T = stock.spot.size(1)
-        case = {"ttm_grid": True, "dt": dtv, "steps": ksteps, "dtype": dname, "T": T}
+        hcls = "" if T - 1 == round(d.maturity / dtv) else ":series!=maturity"
+        case = {"ttm_grid": True, "dt": dtv, "steps": ksteps, "dtype": dname, "T": T} | ({"route": route, "other_horizon_steps": osteps} if hcls else {})
         ctx.case(case, True, tag="ttm_grid")
+        ctx.stats[f"ttm_grid: route={route}"] += 1
+        ctx.stats["ttm_grid: series " + ("!=" if hcls else "==") + " maturity"] += 1
         from pfhedge.features._getter import get_feature
         for fname in ("time_to_maturity", "expiry_time"):
             try:
@@ -617,7 +669,7 @@ def check(ctx):
                     at = f.get(i)
                     col = allv[:, [i]]
                     if at.shape != col.shape or at.dtype != col.dtype:
-                        ctx.fail(f"feature {fname}: get(i) and column i of get(None) differ in shape / dtype", case | {"i": i}, key=f"feature:{fname}:step-vs-all")
+                        ctx.fail(f"feature {fname}: get(i) and column i of get(None) differ in shape / dtype", case | {"i": i}, key=f"feature:{fname}:step-vs-all" + hcls)
                         break
                     a_, b_ = at.to(torch.float64).reshape(-1).tolist(), col.to(torch.float64).reshape(-1).tolist()
                     # identity of real numbers; in floating point (T-1)dt - i dt and (T-1-i) dt differ by a few ulp OF THE DTYPE
@@ -625,10 +677,42 @@ def check(ctx):
                     # (the batched form subtracts two grid times: its rounding error is relative to the horizon (T-1) dt)
                     if any(abs(x - y) > 8 * ulp * max(abs(x), abs(y), (T - 1) * dtv) for x, y in zip(a_, b_)):
                         ctx.fail(f"feature {fname}: get(i) differs from column i of get(None) beyond rounding of the instrument's dtype", case | {"i": i},
-                                 key=f"feature:{fname}:step-vs-all", detail={"at": a_, "col": b_})
+                                 key=f"feature:{fname}:step-vs-all" + hcls, detail={"at": a_, "col": b_})
                         break
+        # a hedger fed with the time to maturity (state-independent inputs): all at once (compute_hedge / compute_pl) and one step at a time
+        # (get_input(i) -> model; functional.pl on that hedge).  Simulated prices, grid times in the instrument's dtype: 64 ulp of the dtype
+        # relative to 1 + |value| + the horizon of the series (the two forms of the time to maturity differ by a few ulp of the horizon; weights of size 1)
+        fname = ("time_to_maturity", "expiry_time")[it % 2]
+        lin = torch.nn.Linear(2, 1, dtype=getattr(torch, dname))
+        with torch.no_grad():
+            lin.weight.copy_(torch.tensor([[g.choice([1.0, -1.0, 2.0, 0.5]), g.choice([0.5, -0.5, 1.0, 0.0])]], dtype=getattr(torch, dname)))
+            lin.bias.fill_(g.choice([0.0, 0.25]))
+        hedger = Hedger(lin, [fname, "moneyness"])
+        caseh = case | {"hedger": f"Linear({lin.weight.tolist()}, {lin.bias.tolist()}) on [{fname}, moneyness]"}
+        ctx.case(caseh, True, tag="ttm_grid_hedger")
+        with torch.no_grad():
+            stb, hb, _ = call_impl(hedger.compute_hedge, d)
+            stp, plb, _ = call_impl(hedger.compute_pl, d)
+            try:
+                outs = [lin(hedger.get_input(d, i)) for i in range(T - 1)]
+                hs = torch.cat(outs + [outs[-1]], dim=-2).transpose(-1, -2)
+                pls = pl_fn(spot=stock.spot.unsqueeze(1), unit=hs, cost=[stock.cost], payoff=d.payoff())
+                sts = "ok"
+            except Exception as e:  # noqa
+                sts, hs = "err", repr(e)[:200]
+        if stb != "ok" or stp != "ok" or sts != "ok":
+            ctx.fail("a hedger fed with the time to maturity raises (all at once / one step at a time) on a simulated market", caseh,
+                     key="ttm-hedger:error" + hcls, detail=[str(hb)[:100], str(plb)[:100], str(hs)[:100]])
+            continue
+        tol = 64 * (2.0 ** -52 if dname == "float64" else 2.0 ** -23)
+        far = lambda x, y: tuple(x.shape) != tuple(y.shape) or bool(((x - y).abs() > tol * (1 + (T - 1) * dtv + x.abs())).any())     # noqa
+        if far(hb, hs):
+            ctx.fail("a hedger fed with the time to maturity (state-independent inputs) gives different hedges all at once and one step at a time", caseh,
+                     key="ttm-hedger:batched-vs-stepwise" + hcls, detail={"batched": hb.tolist(), "stepwise": hs.tolist()})
+        elif far(plb, pls):
+            ctx.fail("a hedger fed with the time to maturity (state-independent inputs) gives different P&L all at once and one step at a time", caseh,
+                     key="ttm-hedger:pl:batched-vs-stepwise" + hcls, detail={"batched": plb.tolist(), "stepwise": pls.tolist()})
     # ------------------------------------------------------------------ hedges in both modes
-    from pfhedge.nn.functional import pl as pl_fn
     n_h = 800 if ctx.tier == "quick" else 3500
     for it in range(n_h):
         mk = signed_market(g, gen_market(g))
@@ -644,37 +728,62 @@ def check(ctx):
         names = [g.choice(usable) for _ in range(k)]
         thr = g.choice([x for p in mk["spot"] for x in p])
         kindm = g.choice(["linear", "mlp", "linear"])
-        ms = gen_linear(g, k, H) if kindm == "linear" else gen_mlp(g, k, H)
-        d, u = build_derivative(torch, mk)
         T, N = mk["T"], mk["N"]
+        # where the state-dependent input stands among the declared inputs: last (as in the documentation's examples), first, in between;
+        # the model sees its columns in the DECLARED order, the H columns of prev_hedge at that position
+        pos = None
+        # the price series need not end at the derivative's own maturity (a buffer registered by hand, the underlier simulated with another
+        # horizon, a sibling derivative of another maturity simulated last, the maturity edited): Tm = grid points up to maturity
+        Tm = T
+        c0 = it - len(DEFAULT_HEDGE_CORPUS)
+        if 0 <= c0 < len(PREV_POS_CORPUS):
+            names, H, pos = PREV_POS_CORPUS[c0]
+            k = len(names)
+        elif 0 <= c0 - len(PREV_POS_CORPUS) < len(HORIZON_CORPUS):
+            names, H, dT = HORIZON_CORPUS[c0 - len(PREV_POS_CORPUS)]
+            k, kindm, Tm = len(names), "linear", (T - dT if T - dT >= 2 else T + abs(dT))
+        elif g.chance(0.15):
+            Tm = g.choice([t_ for t_ in (2, 3, 4, 6, 9, 13) if t_ != T])
+        if pos is None:
+            pos = g.weighted([(k, 5)] + [(j, 3.0 / k) for j in range(k)])
+        if Tm != T and c0 >= len(PREV_POS_CORPUS) and c0 - len(PREV_POS_CORPUS) < len(HORIZON_CORPUS):
+            # (corpus) a model that looks at the time to maturity whatever the other draws: no ReLU, weight 1 or more on that column
+            ms = gen_linear(g, k, H, relu=False)
+            ms["w"][0][names.index("time_to_maturity")] = g.choice([F(1), F(2), F(-1)])
+        else:
+            ms = gen_linear(g, k, H) if kindm == "linear" else gen_mlp(g, k, H)
+        d, u = build_derivative(torch, mk)
         others = extra_hedges(torch, g, mk, H - 1)
         if dflt and H > 1:
             d = user_derivative(torch, mk, u, others, reg)
+        if Tm != T:
+            d.maturity = (Tm - 1) * float(mk["dt"])
+        put = lambda xs, x: list(xs[:pos]) + [x] + list(xs[pos:])      # noqa  (the declared inputs with the state-dependent one at `pos`)
         base = model_obj(torch, ms)
         feats = [feature_obj(torch, n, mk, thr) for n in names]
         h_batched = Hedger(base, feats)
         rec = []
 
         class DropPrev(torch.nn.Module):
-            def __init__(self, inner, H):
+            def __init__(self, inner, H, pos):
                 super().__init__()
-                self.inner, self.H = inner, H
+                self.inner, self.H, self.pos = inner, H, pos
 
             def forward(self, x):
                 rec.append(x.detach().clone())
-                return self.inner(x[..., :-self.H])
-        h_step = Hedger(DropPrev(base, H), [feature_obj(torch, n, mk, thr) for n in names] + ["prev_hedge"])
+                return self.inner(torch.cat([x[..., :self.pos], x[..., self.pos + self.H:]], dim=-1))
+        h_step = Hedger(DropPrev(base, H, pos), put([feature_obj(torch, n, mk, thr) for n in names], "prev_hedge"))
         # a model that really consumes prev_hedge (directly, or through a ModuleOutput that hands it on unchanged)
         msp = gen_linear(g, k + H, H)
         prev_form = g.choice(["prev_hedge", "prev_hedge", "module_output(prev_hedge)"])
         prev_feat = lambda: "prev_hedge" if prev_form == "prev_hedge" else ModuleOutput(torch.nn.Identity(), ["prev_hedge"])   # noqa
         m_prev = model_obj(torch, msp)
-        h_prev = Hedger(m_prev, [feature_obj(torch, n, mk, thr) for n in names] + [prev_feat()])
+        h_prev = Hedger(m_prev, put([feature_obj(torch, n, mk, thr) for n in names], prev_feat()))
         # COPIES of the three hedgers (taken before or after the originals were used), see copy_hedger
         copy_kind = g.choice(COPY_KINDS + ["none"] * 3)
         rebuild = {"batched": lambda: Hedger(model_obj(torch, blank_model(ms)), [feature_obj(torch, n, mk, thr) for n in names]),
-                   "step": lambda: Hedger(DropPrev(model_obj(torch, blank_model(ms)), H), [feature_obj(torch, n, mk, thr) for n in names] + ["prev_hedge"]),
-                   "prev": lambda: Hedger(model_obj(torch, blank_model(msp)), [feature_obj(torch, n, mk, thr) for n in names] + [prev_feat()])}
+                   "step": lambda: Hedger(DropPrev(model_obj(torch, blank_model(ms)), H, pos), put([feature_obj(torch, n, mk, thr) for n in names], "prev_hedge")),
+                   "prev": lambda: Hedger(model_obj(torch, blank_model(msp)), put([feature_obj(torch, n, mk, thr) for n in names], prev_feat()))}
         originals = {"batched": h_batched, "step": h_step, "prev": h_prev}
         copies = {}
         if copy_kind.endswith("_fresh"):
@@ -690,8 +799,16 @@ def check(ctx):
         ctx.stats[f"copy={copy_kind}"] += 1
         ctx.stats[f"hedge: strike{'<0' if mk['strike'] < 0 else '>0'}"] += 1
         cls = sign_class(mk)
+        pcls = ":prev-not-last" if pos != k else ""
+        hcls = ":series!=maturity" if Tm != T else ""
+        ctx.stats[f"prev_hedge declared {'last' if pos == k else 'first' if pos == 0 else 'in between'}"] += 1
+        ctx.stats[f"hedge: series {'as long as' if Tm == T else 'longer than' if Tm < T else 'shorter than'} the maturity"] += 1
         case = {"H": H, "features": names, "thr": rat_str(thr), "model": model_json(ms), "option": mk["option"], "primary": mk["primary"],
                 "T": T, "N": N, "spot": enc_rat(mk["spot"]), "strike": rat_str(mk["strike"]), "dt": rat_str(mk["dt"])}
+        if pcls:
+            case |= {"inputs_of_the_state_dependent_hedgers": put(names, "prev_hedge")}
+        if hcls:
+            case |= {"maturity": f"{Tm - 1} steps of dt (the series has {T - 1})"}
         if dflt:
             case |= {"hedge_argument": None} | ({"derivative": f"user-defined {mk['option']} with {H} underliers ({reg})",
                                                  "other_underliers": [enc_rat(tensor_to_fracs(o.spot)) for o in others]} if H > 1 else {})
@@ -724,10 +841,12 @@ def check(ctx):
             try:
                 fl = FeatureList([feature_obj(torch, n, mk, thr) for n in names]).of(d)
                 prev_, cols = torch.zeros(N, 1, H, dtype=torch.float64), []
+                at_step = [[f_.get(i) for f_ in fl.features] for i in range(T - 1)]       # (N, 1, 1) each, in the declared order
                 for i in range(T - 1):
-                    prev_ = m_prev(torch.cat([fl.get(i), prev_], dim=-1))
+                    prev_ = m_prev(torch.cat(put(at_step[i], prev_), dim=-1))
                     cols.append(prev_)
                 ref3 = torch.cat(cols + [cols[-1]], dim=-2).transpose(-1, -2)
+                all_steps = fl.get(None)                                                  # (N, T, k)
             except Exception as e:  # noqa
                 st_ref = repr(e)
             # the copies: each evaluated (the step-by-step one with the recording wrapper), then the original once more
@@ -795,7 +914,7 @@ def check(ctx):
             continue
         if st3 == "ok" and not same_hedge(out3, ref3):
             ctx.fail("a hedger consuming prev_hedge does not follow out_i = model(features_i, out_{i-1}), out_{-1} = 0", casep,
-                     key="compute_hedge:prev_hedge:recurrence" + dfl + cls, detail={"hedger": out3.tolist(), "by_hand": ref3.tolist()})
+                     key="compute_hedge:prev_hedge:recurrence" + dfl + cls + pcls, detail={"hedger": out3.tolist(), "by_hand": ref3.tolist()})
         copied = copy_kind != "none"
         if copied and st3 == "ok" and (stc3 != "ok" or not same_hedge(outc3, ref3)):
             ctx.fail(f"a copy ({copy_kind}) of a hedger consuming prev_hedge does not follow out_i = model(features_i, out_{{i-1}}), out_{{-1}} = 0",
@@ -822,7 +941,7 @@ def check(ctx):
                              key="compute_hedge:copy:calls", detail={"calls": len(rec_copy)})
                 else:
                     for i, x in enumerate(rec_copy):
-                        prev = x[..., -H:].squeeze(1).tolist()
+                        prev = x[..., pos:pos + H].squeeze(1).tolist()
                         exp = [[0.0] * H for _ in range(N)] if i == 0 else [[outc2[p][hh][i - 1].item() for hh in range(H)] for p in range(N)]
                         if tuple(x.shape) != (N, 1, k + H) or prev != exp:
                             ctx.fail(f"in a copy ({copy_kind}) of a hedger, prev_hedge seen by the model at step i is not the model's output at step i-1 "
@@ -831,12 +950,12 @@ def check(ctx):
                             break
         if st3 != "ok":
             ctx.fail("a hedger consuming prev_hedge raises although the hand-unrolled recurrence out_i = model(features_i, out_{i-1}), out_{-1} = 0 (one entry per "
-                     "hedging instrument) is defined", casep, key="compute_hedge:prev_hedge:raises" + dfl, detail=str(out3)[:200])
-        if dflt and rec and (tuple(rec[0].shape) != (N, 1, k + H) or bool((rec[0][..., k:] != 0).any())):
+                     "hedging instrument) is defined", casep, key="compute_hedge:prev_hedge:raises" + dfl + pcls, detail=str(out3)[:200])
+        if dflt and rec and (tuple(rec[0].shape) != (N, 1, k + H) or bool((rec[0][..., pos:pos + H] != 0).any())):
             ctx.fail("hedge=None: prev_hedge seen by the model at step 0 is not zero with one entry per hedging instrument (= per underlier of the derivative)",
                      case, key="compute_hedge:prev_hedge:step0" + dfl, detail={"shape": list(rec[0].shape), "expected": [N, 1, k + H], "seen": rec[0].tolist()})
         if st1 != "ok" or st2 != "ok":
-            ctx.fail("compute_hedge raised on a well-formed market", case, key="compute_hedge:error" + dfl, detail=[str(out1)[:100], str(out2)[:100]])
+            ctx.fail("compute_hedge raised on a well-formed market", case, key="compute_hedge:error" + dfl + pcls + hcls, detail=[str(out1)[:100], str(out2)[:100]])
             continue
         if dflt and (tuple(out1.shape) != (N, H, T) or tuple(out2.shape) != (N, H, T)):
             ctx.fail("hedge=None: the hedge has not one row per underlier of the derivative", case, key="compute_hedge:shape" + dfl,
@@ -867,36 +986,57 @@ def check(ctx):
             near(x, y) for pa, pb in zip(a, b) for ra, rb in zip(pa, pb) for x, y in zip(ra, rb))
         if not ok:
             ctx.fail("a hedger with state-independent inputs gives different hedges all-at-once and step-by-step", case,
-                     key="compute_hedge:batched-vs-stepwise" + dfl + cls, detail={"batched": a, "stepwise": b})
+                     key="compute_hedge:batched-vs-stepwise" + dfl + cls + pcls + hcls, detail={"batched": a, "stepwise": b})
         # recorded inputs: prev_hedge column at step i == output at step i-1; zeros (width H) at step 0
         if len(rec) != T - 1:
             ctx.fail("the model is not called once per step 0..T-2 in the step-by-step mode", case, key="compute_hedge:calls",
                      detail={"calls": len(rec)})
         else:
             for i, x in enumerate(rec):
-                prev = x[..., -H:].squeeze(1).tolist()
+                prev = x[..., pos:pos + H].squeeze(1).tolist()
                 exp = [[0.0] * H for _ in range(N)] if i == 0 else [[out2[p][hh][i - 1].item() for hh in range(H)] for p in range(N)]
                 if tuple(x.shape) != (N, 1, k + H) or prev != exp:
-                    ctx.fail("prev_hedge seen by the model at step i is not the model's output at step i-1 (zeros of width H at step 0)",
-                             case | {"i": i}, key="compute_hedge:prev_hedge" + dfl, detail={"seen": prev, "expected": exp, "shape": list(x.shape)})
+                    ctx.fail("prev_hedge seen by the model at step i is not the model's output at step i-1 (zeros of width H at step 0)" +
+                             (" in the columns where `inputs` declares it" if pcls else ""),
+                             case | {"i": i}, key="compute_hedge:prev_hedge" + dfl + pcls, detail={"seen": prev, "expected": exp, "shape": list(x.shape), "input": x.tolist()})
+                    break
+            # the whole input the model saw at step i: the features' own single-step values in the DECLARED order, prev_hedge where it was declared;
+            # and, prev_hedge left out, column i of the input for all steps (bitwise; 8 ulp for logarithms and the time to maturity)
+            for i, x in enumerate(rec):
+                if tuple(x.shape) != (N, 1, k + H):
+                    break
+                want = torch.cat(put(at_step[i], x[..., pos:pos + H]), dim=-1)
+                if not (torch.equal(x, want) or bool(((x == want) | (x.isnan() & want.isnan())).all())):
+                    ctx.fail("the input the model of a state-dependent hedger sees at step i is not the features' values at step i in the order `inputs` declares them "
+                             "(prev_hedge where it was declared)", case | {"i": i}, key="compute_hedge:stepwise-input:declared-order" + dfl + pcls,
+                             detail={"seen": x.tolist(), "declared_order": want.tolist()})
+                    break
+                rest = torch.cat([x[..., :pos], x[..., pos + H:]], dim=-1)
+                if tuple(all_steps.shape) != (N, T, k) or not all(
+                        vals_equal(rest[..., j].tolist(), all_steps[:, [i], j].tolist(), names[j] in LOG_FEATURES or names[j] == "time_to_maturity") for j in range(k)):
+                    ctx.fail("the state-independent inputs the model sees at step i of the step-by-step evaluation are not column i of the same inputs evaluated for all steps",
+                             case | {"i": i}, key="compute_hedge:stepwise-input-vs-all-steps" + dfl + cls + hcls,
+                             detail={"at_step": rest.tolist(), "column": all_steps[:, [i]].tolist() if all_steps.dim() == 3 else list(all_steps.shape)})
                     break
         for p in range(N):
             fj = [feature_json(n, thr) for n in names]
             reqs.append({"op": "hedge", "market": market_json(mk, p), "features": fj, "model": model_json(ms), "n": T, "h": H})
             metas.append(("hedge", case | {"path": p, "mode": "batched"}, None, anylog, [[out1[p][hh][t].item() for hh in range(H)] for t in range(T)], None))
-            # stepwise in the model: same features + prev_hedge with a module that ignores it
-            ms2 = dict(kind="drop_last", h=H, inner=ms)
-            reqs.append({"op": "hedge", "market": market_json(mk, p), "features": fj + [["prev_hedge"]], "model": model_json(ms2), "n": T, "h": H})
+            # stepwise in the model: same features + prev_hedge (where it was declared) with a module that ignores it: drops the last H
+            # columns / has zero weights on the H columns at `pos`
+            ms2 = dict(kind="drop_last", h=H, inner=ms) if pos == k else pad_model(ms, H, pos)
+            fjp = put(fj, ["prev_hedge"])
+            reqs.append({"op": "hedge", "market": market_json(mk, p), "features": fjp, "model": model_json(ms2), "n": T, "h": H})
             metas.append(("hedge", case | {"path": p, "mode": "stepwise"}, None, anylog, [[out2[p][hh][t].item() for hh in range(H)] for t in range(T)], None))
             # a model that consumes prev_hedge (the ModuleOutput form hands prev_hedge on unchanged), and the copies
             if st3 == "ok":
-                reqs.append({"op": "hedge", "market": market_json(mk, p), "features": fj + [["prev_hedge"]], "model": model_json(msp), "n": T, "h": H})
+                reqs.append({"op": "hedge", "market": market_json(mk, p), "features": fjp, "model": model_json(msp), "n": T, "h": H})
                 metas.append(("hedge", casep | {"path": p, "mode": "recurrent"}, None, anylog, [[out3[p][hh][t].item() for hh in range(H)] for t in range(T)], None))
             if p == 0 and stc2 == "ok" and tuple(outc2.shape) == (N, H, T):
-                reqs.append({"op": "hedge", "market": market_json(mk, p), "features": fj + [["prev_hedge"]], "model": model_json(ms2), "n": T, "h": H})
+                reqs.append({"op": "hedge", "market": market_json(mk, p), "features": fjp, "model": model_json(ms2), "n": T, "h": H})
                 metas.append(("hedge", casec | {"path": p, "mode": "stepwise-copy"}, None, anylog, [[outc2[p][hh][t].item() for hh in range(H)] for t in range(T)], None))
             if p == 0 and st3 == "ok" and stc3 == "ok" and tuple(outc3.shape) == (N, H, T):
-                reqs.append({"op": "hedge", "market": market_json(mk, p), "features": fj + [["prev_hedge"]], "model": model_json(msp), "n": T, "h": H})
+                reqs.append({"op": "hedge", "market": market_json(mk, p), "features": fjp, "model": model_json(msp), "n": T, "h": H})
                 metas.append(("hedge", casep | {"copy": copy_kind, "path": p, "mode": "recurrent-copy"}, None, anylog, [[outc3[p][hh][t].item() for hh in range(H)] for t in range(T)], None))
     # ------------------------------------------------------------------ one-feature hedgers with modules working in place
     inplace_section(ctx, torch, g, reqs, metas)
@@ -939,9 +1079,10 @@ def check(ctx):
              "P&L, loss and the market afterwards (deterministic corpus + random); non-trivial = T>=2; distinct = sha1 of canonical case")
 
 
-def pad_model(ms, H):
-    """same module with H extra (ignored) inputs appended: zero weights on the prev_hedge columns"""
+def pad_model(ms, H, pos=None):
+    """same module with H extra (ignored) inputs inserted at column `pos` (default: appended): zero weights on the prev_hedge columns"""
+    ins = lambda r: r[:len(r) if pos is None else pos] + [F(0)] * H + r[len(r) if pos is None else pos:]   # noqa
     if ms["kind"] == "linear":
-        return dict(kind="linear", w=[r + [F(0)] * H for r in ms["w"]], b=ms["b"], relu=ms["relu"])
+        return dict(kind="linear", w=[ins(r) for r in ms["w"]], b=ms["b"], relu=ms["relu"])
     l0 = ms["layers"][0]
-    return dict(kind="mlp", layers=[dict(w=[r + [F(0)] * H for r in l0["w"]], b=l0["b"])] + ms["layers"][1:])
+    return dict(kind="mlp", layers=[dict(w=[ins(r) for r in l0["w"]], b=l0["b"])] + ms["layers"][1:])
